@@ -562,6 +562,12 @@ def m_np_all(interp, x):
     return interp.truth(x) if not isinstance(x, (SymBool,)) else x
 
 
+def m_np_any(interp, x):
+    if isinstance(x, ListArr):
+        return x.any()
+    return interp.truth(x) if not isinstance(x, (SymBool,)) else x
+
+
 def m_logical_not(interp, x):
     if isinstance(x, ListArr):
         return ListArr([sym_not(e) for e in x.items], bool)
@@ -1037,6 +1043,7 @@ def install(interp, m):
         "right_shift": lambda *a, **k: m_right_shift(interp, *a, **k),
         "sqrt": lambda *a, **k: m_sqrt(interp, *a, **k),
         "all": lambda x: m_np_all(interp, x),
+        "any": lambda x: m_np_any(interp, x),
         "logical_not": lambda x: m_logical_not(interp, x),
         "where": lambda x: m_where(interp, x),
         "diff": lambda x: m_diff(interp, x),
